@@ -98,7 +98,7 @@ def cells_for(chk, tier):
             cells.append((s, ()))
         for s in rng.sample(srcs, 12):
             cells.append((s, rng.choice(OPTION_SETS[1:])))
-        gen = gensrc.sources_for("C01", chk, n=8)
+        gen = gensrc.sources_for("C01", chk, n=13)
     else:
         for s in srcs:
             cells.append((s, ()))
@@ -107,7 +107,14 @@ def cells_for(chk, tier):
         gen = gensrc.sources_for("C01", chk, n=60)
     for g in gen:
         cells.append((g, ()))
-        cells.append((g, rng.choice(OPTION_SETS[1:])))
+        fam = os.path.basename(os.path.dirname(g))
+        # switch on the option the family's mechanism depends on
+        if "mixedglyphs" in fam:
+            cells.append((g, ("--prefer-simple-glyphs=false",)))
+        elif "nested" in fam or "nonexport" in fam:
+            cells.append((g, rng.choice([("--flatten-components",), ("--decompose-transformed-components",), ("--flatten-components", "--decompose-transformed-components")])))
+        else:
+            cells.append((g, rng.choice(OPTION_SETS[1:])))
     return cells
 
 
